@@ -662,9 +662,9 @@ func gen(r *hlib.Rand, n int, tier, profile string, emit func(string, ...any)) {
 			total += genOwnAddrCase(r, emit)
 		case profile == "C09" && k < 36, profile != "C09" && k < 6:
 			total += genReloadCase(r, emit)
-		case profile == "C09" && k < 50:
+		case profile == "C09" && k < 58:
 			total += genAllowCase(r, emit)
-		case profile == "C09" && k < 64:
+		case profile == "C09" && k < 80:
 			total += genRelayCase(r, emit)
 		case profile == "C10" && k < 55, profile != "C10" && k < 9:
 			total += genDelayedStage2Case(r, emit)
